@@ -366,7 +366,7 @@ func (e *env) apiStates() []hx.Event {
 		return res
 	}
 	for _, t := range resp.Tasks {
-		res = append(res, hx.Event{"task": t.TaskID, "state": t.State, "reason": t.LastPauseReason != ""})
+		res = append(res, hx.Event{"task": t.TaskID, "state": t.State, "reason": t.LastPauseReason != "", "why": t.LastPauseReason})
 	}
 	sort.Slice(res, func(i, j int) bool { return res[i]["task"].(string) < res[j]["task"].(string) })
 	return res
